@@ -365,6 +365,30 @@ func (realComp) Exec(c *wire.Case, w *wire.Writer) {
 				}
 			}
 			w.Ob(wire.R("concdone").I("n", len(prev)))
+		case "conclog":
+			// the same, each run with its own logger: every run must see exactly its own events
+			seq := make([]*realOut, len(prev))
+			for i, p := range prev {
+				seq[i] = realRun(p, true)
+			}
+			par := make([]*realOut, len(prev))
+			var wg sync.WaitGroup
+			for i, p := range prev {
+				wg.Add(1)
+				go func(i int, p *wire.Rec) {
+					defer wg.Done()
+					par[i] = realRun(p, true)
+				}(i, p)
+			}
+			wg.Wait()
+			for i := range prev {
+				if par[i].digest() != seq[i].digest() {
+					at, a, b := firstDiff(seq[i].lines, par[i].lines)
+					w.Ob(wire.R("differs").S("where", "concurrent-logs").I("rep", i).I("line", at).S("a", clip(a)).S("b", clip(b)).S("kinds", seq[i].kind+"/"+par[i].kind))
+					break
+				}
+			}
+			w.Ob(wire.R("concdone").I("n", len(prev)))
 		default:
 			w.Ob(wire.R("badop"))
 		}
@@ -518,6 +542,21 @@ func (realComp) Gen(r *rand.Rand, tier string, n int) []*wire.Case {
 			cases = append(cases, &wire.Case{ID: fmt.Sprintf("r%d", i), Ops: []*wire.Rec{s.rec("repeat").I("k", 3)}})
 		}
 	case "isolation":
+		{
+			// directed: the same character twice in one process (state kept outside the run shows up)
+			for _, c := range chars {
+				s := realSpecGen(r, []string{c}, lcs, relics)
+				s.ehp, s.cycles, s.elevel = 3000, 4, 1
+				s.levels, s.abil = []int{80}, 5
+				s.enemies = []string{"dummy", "dummy", "dummy"}
+				first := s.rec("run")
+				again := s.rec("after")
+				cases = append(cases, &wire.Case{ID: "d-twice-" + c, Ops: []*wire.Rec{first, again}})
+			}
+			// directed: concurrent runs each with their own logger
+			a, b := realSpecGen(r, chars, lcs, relics), realSpecGen(r, chars, lcs, relics)
+			cases = append(cases, &wire.Case{ID: "d-concurrent-logs", Ops: []*wire.Rec{a.rec("run"), b.rec("run"), wire.R("conclog")}})
+		}
 		for i := 0; i < n; i++ {
 			var ops []*wire.Rec
 			k := 2 + r.Intn(3)
